@@ -432,6 +432,7 @@ inductive Op where
   | filter (c : Nat) (k : Int)
   | map (c : Nat) (k : Int)
   | gc
+  | harnessOnly       -- heap-Tuple operations of the harness: not modelled, no effect on the modelled objects
 deriving Repr, Inhabited
 
 def excName (k : Int) : String :=
@@ -655,6 +656,7 @@ def plan (op : Op) (v : List (Nat × Option Body)) : Plan :=
       guard := seqGuard (fun _ ty _ => if ty = .I then none else some .ClassError), hard := noGuard, undef := noUndef,
       apply := fun b => (b, .silent) }
   | .gc => .collect
+  | .harnessOnly => .pure .silent
 
 /-- replace the contents of object `i` -/
 def setBody (heap : List Obj) (i : Nat) (b : Body) : List Obj :=
